@@ -93,6 +93,10 @@ type PluginSpec struct {
 	MaxLifeMs     int             `json:"max_life_ms,omitempty"`
 	StartMarker   string          `json:"start_marker,omitempty"` // file appended to when the process starts
 	NoParentWatch bool            `json:"no_parent_watch,omitempty"`
+	// IgnoreClientCert: behave like a plugin that knows nothing about AutoMTLS (an older or non-Go
+	// implementation): PLUGIN_CLIENT_CERT is dropped before Serve, so no certificate is announced
+	// and the plugin serves without TLS
+	IgnoreClientCert bool `json:"ignore_client_cert,omitempty"`
 	// PreAttach is written to os.Stdout/os.Stderr as soon as Serve has swapped them for its pipes
 	PreAttach []Write `json:"pre_attach,omitempty"`
 }
@@ -634,6 +638,9 @@ func pluginMain(specJSON string) {
 		os.Exit(3)
 	}
 	spec.fill()
+	if spec.IgnoreClientCert {
+		os.Unsetenv("PLUGIN_CLIENT_CERT")
+	}
 	if spec.StartMarker != "" {
 		appendLine(spec.StartMarker, fmt.Sprintf("start %d", os.Getpid()))
 	}
